@@ -7,7 +7,7 @@ use crate::engine::*;
 use crate::guard::guarded;
 use crate::json::J;
 use crate::prng::{fnv1a, Rng, FNV_INIT};
-use crate::realise::{plan_canonical, realise, Concrete};
+use crate::realise::{plan_canonical, realise_probed, Concrete};
 use crate::spec::*;
 use rtcp_types::RtcpWriteError;
 
@@ -115,8 +115,8 @@ fn judge_cap(c: &Concrete<'_>, whole: bool, size: &Option<WRes>, n_ref: &mut Opt
     (r, v)
 }
 
-fn case_json(spec: &Spec, cap: usize, hash_key: u64) -> J {
-    J::obj().set("spec", spec.to_json()).set("cap", cap).set("hash_key", hash_key)
+fn case_json(spec: &Spec, cap: usize, hash_key: u64, probes: u64) -> J {
+    J::obj().set("spec", spec.to_json()).set("cap", cap).set("hash_key", hash_key).set("probes", probes)
 }
 
 fn res_code(r: &WRes) -> u64 {
@@ -155,7 +155,11 @@ impl Check for C06 {
         let whole = spec.is_whole_packet();
         let kind = spec.kind_name();
         let kh = fnv1a(FNV_INIT, kind.as_bytes());
-        let found = realise(&plan, hash_key, |c| {
+        // in a quarter of the episodes the unfinished builders are asked for their size (and
+        // written into a scratch buffer) between configuration calls: the announced size must be
+        // that of the finished configuration, whatever was asked before
+        let probes = if ar.chance(1, 4) { ar.next_u64() | 1 } else { 0 };
+        let found = realise_probed(&plan, hash_key, probes, |c| {
             let size = guarded_size(c);
             let n_guess = match &size {
                 Some(WRes::Ok(n)) => *n,
@@ -217,10 +221,10 @@ impl Check for C06 {
         });
         let skind = if matches!(spec, Spec::Compound { .. }) { "compound" } else if whole { "packet" } else { "part" };
         if ctx.stats.wants_sample(skind, idx) && spec.weight() < 60 {
-            ctx.stats.sample(skind, idx, || J::obj().set("spec", spec.to_json()).set("capacities", "0..=n+8").set("hash_key", hash_key));
+            ctx.stats.sample(skind, idx, || J::obj().set("spec", spec.to_json()).set("capacities", "0..=n+8").set("hash_key", hash_key).set("probes", probes));
         }
         if let Some((cap, what, detail)) = found {
-            out.push(Violation { class: format!("{what}@{kind}"), detail, episode: idx, case: case_json(&spec, cap, hash_key), provenance: J::obj().set("swarm", gcfg.to_json()) });
+            out.push(Violation { class: format!("{what}@{kind}"), detail, episode: idx, case: case_json(&spec, cap, hash_key, probes), provenance: J::obj().set("swarm", gcfg.to_json()) });
         }
     }
 
@@ -228,11 +232,12 @@ impl Check for C06 {
         let spec = Spec::from_json(case.obj_of("spec")?)?;
         let cap = case.usize_of("cap")?;
         let hash_key = case.u64_of("hash_key")?;
+        let probes = case.u64_of("probes").unwrap_or(0);
         let plan = plan_canonical(&spec);
         let whole = spec.is_whole_packet();
         let kind = spec.kind_name();
         let mut lg = Vec::new();
-        let v = realise(&plan, hash_key, |c| {
+        let v = realise_probed(&plan, hash_key, probes, |c| {
             let size = guarded_size(c);
             lg.push(format!("calculate_size() -> {size:?}"));
             let mut n_ref = None;
@@ -256,30 +261,35 @@ impl Check for C06 {
 
     fn shrink(&self, case: &J) -> Vec<J> {
         let (Ok(specj), Ok(cap), Ok(key)) = (case.obj_of("spec"), case.usize_of("cap"), case.u64_of("hash_key")) else { return vec![] };
+        let probes = case.u64_of("probes").unwrap_or(0);
         let Ok(spec) = Spec::from_json(specj) else { return vec![] };
         let mut out = Vec::new();
         for s in spec.shrinks() {
-            out.push(case_json(&s, cap, key));
+            out.push(case_json(&s, cap, key, probes));
             // the interesting capacity moves with the size
             for c in [0usize, 4, 8, 12, 16, 20, 24, 28, 32] {
                 if c != cap {
-                    out.push(case_json(&s, c, key));
+                    out.push(case_json(&s, c, key, probes));
                 }
             }
         }
         for c in [0usize, cap / 2, cap.saturating_sub(4), cap.saturating_sub(1)] {
             if c != cap {
-                out.push(case_json(&spec, c, key));
+                out.push(case_json(&spec, c, key, probes));
             }
         }
+        if probes != 0 {
+            out.push(case_json(&spec, cap, key, 0));
+            out.push(case_json(&spec, cap, key, u64::MAX));
+        }
         if key != 0 {
-            out.push(case_json(&spec, cap, 0));
+            out.push(case_json(&spec, cap, 0, probes));
         }
         out
     }
 
     fn rule(&self) -> String {
-        "Per episode one builder configuration of any builder type (SR, RR, SDES, BYE, APP, Unknown, transport/payload feedback x {NACK, FIR, SLI, RPSI, PLI} incl. wrong pairings, PacketBuilder wrappers, CompoundBuilder with 0-6 members and nesting, a third-party writer on utils::writer, SdesChunkBuilder / SdesItemBuilder), fields biased to both sides of every limit; realised with the real builders; n = calculate_size(); then write_into on a seeded-prefilled buffer of EVERY capacity 0..=n+8 (n <= 512; otherwise 0..=64, n-64..=n+8 and 64 seeded capacities between). evaluations = write_into calls. Non-trivial = the capacity fault bites (cap < n), is exact (cap == n), the configuration is rejected, or slack at a word boundary; distinct = distinct (builder kind, capacity relation, result class, n in words, capacity in words).".into()
+        "Per episode one builder configuration of any builder type (SR, RR, SDES, BYE, APP, Unknown, transport/payload feedback x {NACK, FIR, SLI, RPSI, PLI} incl. wrong pairings, PacketBuilder wrappers, CompoundBuilder with 0-6 members and nesting, a third-party writer on utils::writer, SdesChunkBuilder / SdesItemBuilder), fields biased to both sides of every limit; realised with the real builders (in a quarter of the episodes with size queries / scratch writes on the unfinished builders between configuration calls); n = calculate_size(); then write_into on a seeded-prefilled buffer of EVERY capacity 0..=n+8 (n <= 512; otherwise 0..=64, n-64..=n+8 and 64 seeded capacities between). evaluations = write_into calls. Non-trivial = the capacity fault bites (cap < n), is exact (cap == n), the configuration is rejected, or slack at a word boundary; distinct = distinct (builder kind, capacity relation, result class, n in words, capacity in words).".into()
     }
     fn assumptions(&self) -> Vec<String> {
         vec![
